@@ -36,7 +36,7 @@ def RULE(tier):
         "pre-filled journal (also two requests back to back), a TestRequest, a frame above the expected number, an application "
         "message, the first Logon, the heartbeat path (send_test_req), and an initiator application sending its first Logon while "
         "other tasks send Logout / application messages, and an application task that ends the connection (disconnect() with or without a Logout). EXHAUSTIVE depth-first enumeration of all choice "
-        f"sequences (start a task / open gate k / pause / resume / reset the connection while senders wait in drain / cancel an application task that is suspended in its send) up to {G[tier]} choices, each schedule re-executed from scratch and then "
+        f"sequences (start a task / open gate k / pause / resume / reset the connection while senders wait in drain / the peer closing the connection (EOF) while senders wait in drain / cancel an application task that is suspended in its send) up to {G[tier]} choices, each schedule re-executed from scratch and then "
         "run to completion, plus Hypothesis-drawn longer schedules. Oracle on the bytes written, in wire order: the concatenation of all writes is a sequence of well-formed frames; new frames (no "
         "PossDupFlag, not SequenceReset) carry distinct, strictly increasing MsgSeqNums; a PossDup frame repeats a number sent "
         "before with the same body; no task raised anything but FIXConnectionError (in particular no DuplicateSeqNoError); every "
@@ -57,6 +57,7 @@ class Sched:
     def __init__(self, tasks, start="active"):
         self.tasknames = tuple(tasks)
         self.cancelled = set()
+        self.eof_fed = False
         if any(t.startswith("I:") for t in tasks):
             from checks.c11 import make_bench
 
@@ -214,6 +215,9 @@ class Sched:
                 out.append(("fail",))  # the connection is reset while senders wait for the buffer to drain
         else:
             out.append(("pause",))
+        # the peer closes the connection (the reader sees EOF) while senders wait in drain
+        if self.writer.paused and self.writer.drain_waiters and not self.eof_fed and not self.failed:
+            out.append(("eof",))
         # an application task whose send is cancelled while it waits (asyncio.wait_for(conn.send_msg(m), timeout), task.cancel())
         for n in ("A", "B", "L"):
             t = self.tasks.get(n)
@@ -228,6 +232,11 @@ class Sched:
             self.open(c[1])
         elif c[0] == "pause":
             self.pause()
+        elif c[0] == "eof":
+            self.eof_fed = True
+            self.b.link.readers[self.b.side].feed_eof()
+            self.w.idle()
+            self._track()
         elif c[0] == "cancel":
             self.cancelled.add(c[1])
             self.tasks[c[1]].cancel()
@@ -288,7 +297,13 @@ def execute(acc, tasks, schedule, origin, judge=True):
         done = s.finish()
         if not done:
             bad("tasks-never-finish", "after opening every gate and releasing back-pressure some task is still suspended")
+        lost = s.failed or s.eof_fed or any(t.startswith("X:") for t in tasks)  # the connection ended during the run
         for name, et, msg in s.errors:
+            if lost and et == "AttributeError" and s.ep._socket_writer is None:
+                # a send that passed the state gate, was suspended in an application hook and found the transport gone when
+                # it resumed: which exception it then raises is not part of this property (its number is journaled, see below)
+                acc.klass("send-resumed-after-connection-loss-FREE")
+                continue
             bad(f"task-exception/{et}", f"task {name} raised {et}: {msg}")
         # the reader task must have survived
         if s.ep._aio_task_socket_read.done():
@@ -340,7 +355,7 @@ def execute(acc, tasks, schedule, origin, judge=True):
                 if hit:
                     bad("gapfill-covers-replayable-message", f"GapFill {lo}->{hi + 1} skips the replayable application message(s) {hit} (a peer honouring it never receives them)")
                     break
-        if s.expected_replay is not None and done and not s.failed and not any(t.startswith("X:") for t in tasks):
+        if s.expected_replay is not None and done and not lost:
             retr = set()
             for fr in frames:
                 p = ref_parse(fr)
@@ -351,6 +366,10 @@ def execute(acc, tasks, schedule, origin, judge=True):
                 bad("replay-incomplete", f"replayable application message(s) {sorted(missing)} journaled before the ResendRequest were not retransmitted (retransmitted: {sorted(retr)})")
         live = s.ep._session.next_num_out
         stored = s.ep._journaler.create_or_load(s.ep._session.target_comp_id, s.ep._session.sender_comp_id).next_num_out
+        if lost:
+            # frames journaled but never written when the connection went away count as sent: the peer will ask for them
+            rows = [int(ref_get(ref_parse(r_), 34)) for r_ in s.ep._journaler.recover_messages(s.ep._session, MessageDirection.OUTBOUND, 1, 2**62)]
+            last_new = max([last_new] + rows)
         if sent and (live != last_new + 1 or stored != last_new + 1):
             bad("final-counter", f"highest new number sent {last_new}; live next_num_out={live}, stored={stored}")
         nt = s.max_suspended >= 2
